@@ -557,7 +557,7 @@ def classes(case) -> List[str]:
 
 
 def in_scope(case) -> bool:
-    return not eqlgen.has_quant(case["cond"])
+    return True
 
 
 # ------------------------------------------------------------------ model / spec side
@@ -717,17 +717,15 @@ def run(tier: str, seed: int, replay=None) -> int:
     elif replay is not None and family == "match":
         match_scs.append(replay["scenario"])
     elif replay is not None and "case" in replay:
-        c = normalise(replay["case"])
-        (qcases if eqlgen.has_quant(c["cond"]) else cases).append(c)
-        (qorigin if eqlgen.has_quant(c["cond"]) else origin).append("replay")
+        cases.append(normalise(replay["case"]))
+        origin.append("replay")
     elif replay is None:
         cdir = core.VERIF / "corpus" / PROP
         for f in sorted(cdir.glob("*.json")) if cdir.is_dir() else []:
             d = json.loads(f.read_text())
             if "case" in d:
-                c = normalise(d["case"])
-                (qcases if eqlgen.has_quant(c["cond"]) else cases).append(c)
-                (qorigin if eqlgen.has_quant(c["cond"]) else origin).append(f"corpus:{f.name}")
+                cases.append(normalise(d["case"]))
+                origin.append(f"corpus:{f.name}")
         n = 420 if tier == "quick" else 6000
         rng = core.Rng(seed * 1000003 + 17)
         i = 0
@@ -740,12 +738,13 @@ def run(tier: str, seed: int, replay=None) -> int:
         nq = 150 if tier == "quick" else 2500
         rq = core.Rng(seed * 1000003 + 99)
         i = 0
-        while len(qcases) < nq + len([o for o in qorigin if o.startswith("corpus")]):
+        while nq > 0:
             c = normalise(eqlgen.gen_case(rq.fork(i), "quant"))
             i += 1
-            if eqlgen.has_quant(c["cond"]):
-                qcases.append(c)
-                qorigin.append(f"genq:{i - 1}")
+            if eqlgen.has_quant(c["cond"]):          # since the model covers exists / for_all they are ordinary cases
+                cases.append(c)
+                origin.append(f"genq:{i - 1}")
+                nq -= 1
         rm = core.Rng(seed * 1000003 + 55)
         match_scs = [gen_match_scenario(rm.fork(i)) for i in range(300 if tier == "quick" else 4000)]
 
